@@ -4,4 +4,5 @@ CONSTANT Tier = "quick"
 SPECIFICATION Spec
 INVARIANT Layout
 INVARIANT Hash
+INVARIANT Rows
 CHECK_DEADLOCK FALSE
